@@ -1,7 +1,7 @@
 (* Entry point of the extracted runner: [run fn arg].  The Python side finds function
    numbers by parsing the "(* FN name *)" comments below. *)
 From Coq Require Import ZArith List Bool.
-From PyCraft Require Import Base.Res Base.Sx Model.VarInt Model.Versions Model.Position Model.SignedHex Model.Sha1 Model.Tables Model.FieldTypes Model.Nbt Model.Prog Model.CustomPackets Spec.ProtocolTable Model.Frame Model.Aes Model.Cfb8 Model.Rsa Model.Dispatch Model.ExcChain.
+From PyCraft Require Import Base.Res Base.Sx Model.VarInt Model.Versions Model.Position Model.SignedHex Model.Sha1 Model.Tables Model.FieldTypes Model.Nbt Model.Prog Model.CustomPackets Spec.ProtocolTable Model.Frame Model.Aes Model.Cfb8 Model.Rsa Model.Dispatch Model.ExcChain Model.Reactors.
 Import ListNotations.
 Open Scope Z_scope.
 
@@ -128,6 +128,34 @@ Definition of_call (c : call) : sx := match c with HCall h e r => L [I 0; I h; I
 Definition of_result (r : result) : sx :=
   L [L (map of_call (r_log r)); of_opt I (r_recorded r); of_bool (r_caught r); of_opt I (r_reraised r); of_bool (r_disconnected r); of_bool (r_consumed r)].
 
+(* ---- login / play sessions ---- *)
+Definition sx_inpkt (s : sx) : inpkt :=
+  match sx_z (sx_nth s 0) with
+  | 0 => IEncReq (sx_zs (sx_nth s 1)) (sx_zs (sx_nth s 2)) (sx_zs (sx_nth s 3))
+  | 1 => ISetComp (sx_z (sx_nth s 1))
+  | 2 => IPlugin (sx_z (sx_nth s 1))
+  | 3 => ISuccess
+  | 4 => ILoginDisconnect (sx_zs (sx_nth s 1))
+  | 5 => IKeepAlive (sx_z (sx_nth s 1))
+  | 6 => IPosLook (sx_z (sx_nth s 1)) (sx_zs (sx_nth s 2))
+  | 7 => IPlayDisconnect
+  | _ => IOther (sx_z (sx_nth s 1))
+  end.
+Definition sx_step (s : sx) : step :=
+  match sx_z (sx_nth s 0) with 0 => SRecv (sx_inpkt (sx_nth s 1)) | _ => SFlush (Z.to_nat (sx_z (sx_nth s 1))) end.
+Definition of_outpkt (o : outpkt) : sx :=
+  match o with
+  | OEncResp a b => L [I 0; of_zs a; of_zs b] | OPluginResp m => L [I 1; I m] | OKeepAlive k => L [I 2; I k]
+  | OTeleportConfirm t => L [I 3; I t] | OPosLook p => L [I 4; of_zs p]
+  end.
+Definition of_wev (w : wev) : sx := L [of_outpkt (w_pkt w); of_opt I (w_comp w); of_opt of_zs (w_enc w)].
+Definition of_ending (e : ending) : sx :=
+  match e with ENormalExit => L [I 0] | ELoginDisconnect m => L [I 1; of_zs m] | EVersionMismatch v => L [I 2; of_zs v] end.
+Definition hash_or_nil (sid sec key : list Z) : list Z := match verification_hash sid sec key with Ok h => h | _ => [] end.
+Definition of_sess (s : sess) : sx :=
+  L [of_bool (s_play s); of_opt I (s_comp s); of_opt of_zs (s_enc s); L (map of_outpkt (s_queue s)); L (map of_wev (s_wire s));
+     L (map (fun j => L [of_zs (fst j); of_nat (snd j)]) (s_joins s)); of_bool (s_spawned s); of_opt of_ending (s_end s); of_nat (s_exits s)].
+
 Definition run (fn : Z) (a : sx) : sx :=
   match fn with
   | 1 => (* FN varint_read : (maxb bytes) *)
@@ -215,5 +243,9 @@ Definition run (fn : Z) (a : sx) : sx :=
                              (beh_fn (sx_nth a 3)) (sx_packet (sx_nth a 4)))
   | 72 => (* FN handle_exception : (isinst hook handlers final exc) *)
       of_result (handle_exception (rel_of (sx_nth a 0)) (sx_hook (sx_nth a 1)) (map sx_handler (sx_list (sx_nth a 2))) (sx_final (sx_nth a 3)) (sx_z (sx_nth a 4)))
+  | 80 => (* FN session_run : (secret has_token f107 schedule) ; RSA is reported as the plaintext it carries *)
+      of_sess (run_session (fun _ m => m) (sx_zs (sx_nth a 0)) hash_or_nil (sx_bool (sx_nth a 1)) (sx_bool (sx_nth a 2)) (map sx_step (sx_list (sx_nth a 3))))
+  | 81 => (* FN outdated_ver : (msg) *)
+      of_opt of_zs (outdated_ver (sx_zs (sx_nth a 0)))
   | _ => L [I 99]
   end.
